@@ -1,5 +1,5 @@
 """C07 — fit/transform coherence, row-wise purity and absence of side effects."""
-from harness import k_api, k_qualitative, k_transform
+from harness import C12, k_api, k_qualitative, k_transform
 
 
 def obligations(tier):
@@ -10,4 +10,5 @@ def obligations(tier):
                          param_grid=None),
         k_transform.obligation(tier, {"C07"}, "O7.2 transform kernel: row purity, repeat, index/columns kept, caller's frame untouched (symbolic boundaries and rows)", ms=[2, 3] if quick else [2, 3, 4]),
         k_qualitative.obligation(tier, {"C07"}, "O7.3 qualitative transform: row purity, index/columns kept, caller's frame untouched"),
+        C12.obligation_c07(tier),
     ]
